@@ -310,31 +310,35 @@ example : elems (arAdd (fun _ => 0) [1, 2] [2, 3] 1).added = [1] ∧ elems (arAd
 
 /-- **Encode/Decode round-trips contents and order.**  For element codecs whose decoder inverts the
 encoder on the element domains `DK`/`DV` whatever follows (hence injective and prefix-free there), a
-map with entries in the domains and fewer than 2³² of them: decoding `Encode(m)` (followed by
-arbitrary further bytes) into a receiver `m0` is the fold of `Set` over the entries in order (the
-receiver is not cleared) and reports exactly the encoding's length as consumed; when the keys of `m`
-are distinct (every reachable map) and the receiver is empty this gives back `m` itself — same
-entries, same order. -/
+map with distinct keys (every reachable map), entries in the domains and fewer than 2³² of them:
+decoding `Encode(m)` (followed by arbitrary further bytes) into a receiver `m0` is the fold of `Set`
+over the entries in order (the receiver is not cleared) and reports exactly the encoding's length as
+consumed; into an empty receiver this gives back `m` itself — same entries, same order. -/
 theorem C11_codec_roundtrip {DK DV : Nat → Prop} {encK encV : Nat → Bytes} {decK decV : Dec}
     (hK : Codec DK encK decK) (hV : Codec DV encV decV) (m m0 : AMap) (hdom : ∀ p ∈ m, DK p.1 ∧ DV p.2)
-    (hlen : m.length < 4294967296) (rest : Bytes) :
+    (hn : (AMap.keys m).Nodup) (hlen : m.length < 4294967296) (rest : Bytes) :
     decode decK decV m0 (encode encK encV m ++ rest)
       = (m.foldl (fun c p => (AMap.set c p.1 p.2).1) m0, some (encode encK encV m).length) ∧
-    ((AMap.keys m).Nodup → decode decK decV [] (encode encK encV m ++ rest) = (m, some (encode encK encV m).length)) := by
+    decode decK decV [] (encode encK encV m ++ rest) = (m, some (encode encK encV m).length) := by
   have h1 : ∀ m0, decode decK decV m0 (encode encK encV m ++ rest)
       = (m.foldl (fun c p => (AMap.set c p.1 p.2).1) m0, some (encode encK encV m).length) := by
     intro m0
     unfold decode encode
     rw [Nat.mod_eq_of_lt hlen, List.append_assoc, le32_unle32 _ hlen]
     simp only
-    rw [decodeLoop_encodeEntries hK hV m hdom]
+    rw [decodeLoop_encodeEntries hK hV m hdom _ _ _ hn (by simp)]
     simp [length_le32]
   refine ⟨h1 m0, ?_⟩
-  intro hn
   rw [h1 []]
   have := AMap.foldl_set_append [] m (by simpa using hn)
   simp only [List.nil_append] at this
   rw [this]
+
+/-- After the fix a serialized map that mentions a key twice is rejected (before the fix the two
+entries were merged silently, so two different byte strings decoded to the same map). -/
+theorem C11_codec_rejects_duplicate_witness :
+    (decode decU16 decU8 [] [2, 0, 0, 0, 1, 0, 5, 1, 0, 7]).2 = none ∧
+    (decode decU16 decVoid [] [2, 0, 0, 0, 3, 0, 3, 0]).2 = none := by decide
 
 /-- the concrete element codecs of the correspondence run (serix `uint16`, `uint8`, `struct{}`) satisfy
 the hypothesis on their domains -/
